@@ -123,6 +123,8 @@ def run_property(prop: str, tier: str, seed: int):
                     exhaustive[k] = exhaustive.get(k, 0) + c
                 if v is not None and viol is None:
                     viol = v
+        if viol is None and hasattr(mod, "post_phase"):
+            viol = mod.post_phase(tier, seed, total)
         if viol is not None:
             case, msg, sig = viol
             path = H.write_replay(prop, case, msg)
